@@ -941,6 +941,8 @@ class Enforcer:
         reloaded, data = _cache_handler.read_cached_file(
             self._file_cache, path, force_reload=force_reload)
         if reloaded or not self.rules:
+            # A policy file that has vanished is read as an empty one
+            data = data or ''
             rules = Rules.load(data, self.default_rule)
             self.set_rules(rules, overwrite=overwrite, use_conf=True)
             rules_changed = True
